@@ -55,4 +55,45 @@ def trapCommandExpect (st : State) (c : Nat) (a : Action) (origin : Nat) (overri
     : Action × Origin :=
   if refused st c overrideIgnore then (.ignore, .inherited) else (a, .user origin)
 
+/-- POSIX (2.11 "Signals and Error Handling"): on entry to a subshell a trap that is a command is reset
+    to the default action; ignored and default ones stay -/
+def posixReset : Action → Action
+  | .command _ => .default
+  | a => a
+
+/-- What `TrapSet::enter_subshell(ignore_sigint_sigquit, keep_stoppers)` must leave for signal `s`,
+    read off its documentation and POSIX, from the state BEFORE the call only (not from the per-signal
+    option the code computes): the disposition installed afterwards and the action the entry must hold
+    (`none` = the signal stays unknown to the trap set).
+    * "If `ignore_sigint_sigquit` is true, this function sets the dispositions for SIGINT and SIGQUIT to
+      `Ignore`" (POSIX: an asynchronous list without job control inherits SIGINT/SIGQUIT ignored) —
+      whatever the trap set knew about them before;
+    * "If `keep_internal_dispositions_for_stoppers` is true and the internal dispositions have been
+      enabled for SIGTSTP, SIGTTIN, and SIGTTOU, this function leaves the dispositions for those signals
+      set to `Ignore`";
+    * otherwise: "traps other than `Ignore` [are] reset", "internal dispositions that have been installed
+      are cleared except for the SIGCHLD signal": the POSIX reset of the action merged with SIGCHLD's
+      internal disposition only; an unknown signal is not touched. -/
+def subshellExpect (before : State) (ii ks : Bool) (s : Nat) : Disp × Option Action :=
+  if ii = true ∧ (s = SIGINT ∨ s = SIGQUIT) then (.ignore, some .ignore)
+  else
+    match get before.traps s with
+    | none => (before.sys.disp s, none)
+    | some g =>
+      if ks = true ∧ (s = SIGTSTP ∨ s = SIGTTIN ∨ s = SIGTTOU) ∧ g.internal ≠ .default then
+        (.ignore, some .ignore)
+      else
+        ((if s = SIGCHLD then g.internal else .default).max (posixReset g.current.action).toDisp,
+         some (posixReset g.current.action))
+
+/-- "a signal trap action is running in this shell process": reading the execution stack from the
+    outermost frame, a `Subshell` frame starts a new process (forget what was seen), a `Trap(signal)` frame
+    is remembered (the documentation of `run_traps_for_caught_signals`: no trap action while another runs,
+    except in a subshell executed in a trap) -/
+def signalTrapRunning : List Frame → Bool → Bool
+  | [], acc => acc
+  | .subshell :: rest, _ => signalTrapRunning rest false
+  | .trap c :: rest, acc => signalTrapRunning rest (acc || c != 0)
+  | _ :: rest, acc => signalTrapRunning rest acc
+
 end YashModel.Trap
